@@ -120,7 +120,13 @@ func evalAll(srcs []string) ([]*vk.Verdict, []info, error) {
 		ins[i].out = o.Ref.Stdout
 		vs[i] = o.V
 		if o.V != nil && (o.V.Class == "cl-rejects" || o.V.Class == "xgo-parser-rejects") {
-			vs[i] = &vk.Verdict{Class: "converted-does-not-compile", Detail: o.V.Detail + "\n--- converted source ---\n" + pairs[j].XFiles["bar.xgo"]}
+			cls := "converted-does-not-compile"
+			if strings.Contains(o.V.Detail, "cannot use lambda literal as type") {
+				// a function literal was turned into a lambda where the callee gives no function type
+				// (builtin append, interface{} parameters)
+				cls = "funclit-to-lambda-without-target-type"
+			}
+			vs[i] = &vk.Verdict{Class: cls, Detail: o.V.Detail + "\n--- converted source ---\n" + pairs[j].XFiles["bar.xgo"]}
 		}
 		if vs[i] != nil && vs[i].Class != "generator-bug" && mainHasVarDecl(srcs[i]) {
 			// one known root cause: the converter unwraps func main, so `var x T = e` statements of
